@@ -130,6 +130,11 @@ void Ruleset::prerun(OomdContext& context) {
   for (const auto& action : action_group_) {
     action->prerun(context);
   }
+  // per-cgroup instances hold the plugins that actually run() for a ruleset
+  // with a cgroup setting; they must see prerun() on every tick as well
+  for (const auto& [path, ruleset] : runnable_rulesets_) {
+    ruleset->prerun(context);
+  }
 }
 
 uint32_t Ruleset::runOnce(OomdContext& context) {
